@@ -68,7 +68,9 @@ V4 = ["4.0a00000%d.%d" % (i, 4000 + i) for i in range(1, 5)]
 V6 = ["6.20010db80000000000000000000000%02x.%d" % (i, 6000 + i) for i in range(1, 4)]
 DOM = ["0.%s.%d" % (("node%d.example.org" % i).encode().hex(), 5000 + i) for i in range(1, 3)]
 ZERO = "4.00000000.0"
-POOL = V4 + V6 + DOM + [ZERO]
+# boundary values: port 0 on a real host, the zero host with a real port, high host bytes and the highest port
+EDGE = ["4.0a000009.0", "4.00000000.7", "4.c8c8c8c8.65535"]
+POOL = V4 + V6 + DOM + [ZERO] + EDGE
 SVCS = ["s1", "s2", "s3"]
 NSLOTS = 5          # 0 UDPv4Address, 1 UDPv6Address, 2 tuple, 3 UDPv4LANAddress, 4 DomainAddress
 
@@ -79,8 +81,17 @@ def generate(ctx: Ctx):
 
 # ---------------------------------------------------------------------------------------------------------------
 # tokens <-> python values
+def arg_class(tok: str):
+    """'<addr>~3' -> 3: the class the address ARGUMENT of qa/rma/bla/disc is passed as (None: by text kind / plain tuple)"""
+    return int(tok.split("~")[1]) if "~" in tok else None
+
+
+def bare(tok: str) -> str:
+    return tok.split("~")[0]
+
+
 def addr_value(tok: str):
-    kind, hx, port = tok.split(".")
+    kind, hx, port = bare(tok).split(".")
     raw = bytes.fromhex(hx) if hx != "-" else b""
     if kind == "4":
         return (socket.inet_ntop(socket.AF_INET, raw), int(port))
@@ -167,6 +178,14 @@ class World:
     def addr_obj(self, slot: int, tok: str):
         v = addr_value(tok)
         return tuple(v) if slot == 2 else self.slot_cls[slot](*v)
+
+    def addr_arg(self, tok: str):
+        """address ARGUMENT of a Network call: the class named in the token, else what an endpoint would produce for
+        this text kind (UDPv4Address / UDPv6Address / plain tuple for host names)"""
+        c = arg_class(tok)
+        if c is None:
+            c = 0 if tok[0] == "4" else 1 if tok[0] == "6" else 2
+        return self.addr_obj(c, tok)
 
     def make_peer(self, k: int, slots: dict, ctor=None):
         ctor_slot = next((s for s in sorted(slots) if slots[s] == ctor), None) if ctor is not None else None
@@ -486,8 +505,7 @@ class Real:
         elif op == "add":
             n.add_verified_peer(self.peer_arg(t[1]))
         elif op == "disc":
-            slot = 0 if t[2][0] == "4" else 1 if t[2][0] == "6" else 2
-            n.discover_address(self.peer_arg(t[1]), W.addr_obj(slot, t[2]), None if t[3] == "-" else svc_bytes(t[3]),
+            n.discover_address(self.peer_arg(t[1]), W.addr_arg(t[2]), None if t[3] == "-" else svc_bytes(t[3]),
                                t[4] == "1")
         elif op == "svcs":
             n.discover_services(self.peer_arg(t[1]), [svc_bytes(s) for s in parse_list(t[2])])
@@ -499,12 +517,14 @@ class Real:
         elif op == "rmp":
             n.remove_peer(self.peer_arg(t[1], allow_stored=True))
         elif op == "rma":
-            n.remove_by_address(tuple(addr_value(t[1])))
+            n.remove_by_address(W.addr_arg(t[1]))
         elif op == "bla":
-            n.blacklist.append(tuple(addr_value(t[1])))
+            n.blacklist.append(W.addr_arg(t[1]))
         elif op == "blm":
             n.blacklist_mids.append(W.mids[int(t[1][1:])])
         elif op == "load":
+            if t[1] == "*":     # the implementation's own snapshot() (resolved in execute so that the model sees the bytes)
+                raise ValueError("unresolved load *")
             signal.signal(signal.SIGALRM, _alarm)
             signal.setitimer(signal.ITIMER_REAL, 10)
             try:
@@ -519,7 +539,7 @@ class Real:
         n, W = self.net, self.W
         op = t[0]
         if op == "qa":
-            p = n.get_verified_by_address(tuple(addr_value(t[1])))
+            p = n.get_verified_by_address(W.addr_arg(t[1]))
             return ("none" if p is None else show_peer(W.peer_key(p), W.peer_slots(p))), ([p] if p is not None else [])
         if op == "qk":
             p = n.get_verified_by_public_key_bin(W.key_bins[int(t[1][1:])])
@@ -537,7 +557,7 @@ class Real:
             r = n.get_services_for_peer(W.make_peer(int(t[1][1:]), {}))
             return show_list(svc_show(s) for s in r), []
         if op == "qn":
-            return ("1" if n.is_new_style(tuple(addr_value(t[1]))) else "0"), []
+            return ("1" if n.is_new_style(W.addr_arg(t[1])) else "0"), []
         if op == "snap":
             data = n.snapshot()
             chunks, end = snapshot_chunks(data)
@@ -548,8 +568,10 @@ class Real:
 
     def cache_overflow(self):
         for cache, size in CACHES:
-            c, cap = getattr(self.net, cache, None), getattr(self.net, size, None)
-            if c is not None and cap is not None and len(c) > cap:
+            if not hasattr(self.net, cache) or not hasattr(self.net, size):
+                raise InfraError(f"Network has no attribute {cache}/{size}: the cap oracle cannot run")
+            c, cap = getattr(self.net, cache), getattr(self.net, size)
+            if len(c) > cap:
                 return f"{cache} holds {len(c)} entries, {size} is {cap}"
         return None
 
@@ -691,8 +713,16 @@ def classify(spec: Spec, real: Real, t) -> list:
         n = len(spec.peers_at(t[1]))
         out.append("qa:%s-candidates" % (n if n < 2 else "2+"))
         c = real.net.reverse_ip_lookup
-        out.append("qa:cache-" + ("hit" if tuple(addr_value(t[1])) in c else "miss")
-                   + ("+full" if len(c) >= real.net.reverse_ip_cache_size else ""))
+        key = tuple(addr_value(t[1]))
+        if key in c:
+            obj = c[key]
+            live = real.net.verified_by_public_key_bin.get(obj.public_key.key_to_bin()) is obj
+            out.append("qa:cache-hit:" + ("valid" if live and key in obj.addresses.values() else
+                                          "stale(address-changed)" if live else "stale(object-removed)"))
+        else:
+            out.append("qa:cache-miss")
+        if len(c) >= real.net.reverse_ip_cache_size:
+            out.append("qa:cache-full")
     elif op == "qs" or (op == "qw" and t[1] not in ("-", "s0")):
         c = real.net.reverse_service_lookup
         out.append(f"{op}:cache-" + ("hit" if svc_bytes(t[1]) in c else "miss")
@@ -734,6 +764,11 @@ def sweep_lines(keys, addrs):
     return out
 
 
+def strip_classes(t):
+    """the reference graph and the oracle compare address VALUES: drop the argument-class suffixes"""
+    return [bare(x) if x[:2] in ("4.", "6.", "0.") else x for x in t]
+
+
 def resolve(t, stored_token):
     """'rmp p0:*' / 'add @p0:*' -> the stored object's token (or an address-less fresh peer when there is none)"""
     if t[0] in ("rmp", "add", "disc", "svcs") and t[1].endswith(":*"):
@@ -753,6 +788,13 @@ def execute(ctx: Ctx, lines, tag: str):
     events = real.observe()
     for i, ln in enumerate(lines):
         t = resolve(ln.split(), real.canonical_token)
+        if t[0] == "load" and t[1] == "*":
+            t[1] = real.net.snapshot().hex() or "-"
+            ctx.count("class:load:own-snapshot-fed-back")
+        full = t                      # with argument classes: what the implementation and the model get
+        t = strip_classes(full)       # values only: what the reference graph and the oracle see
+        if any("~" in x for x in full):
+            ctx.count("class:address-argument-class:" + ",".join(sorted({x.split("~")[1] for x in full if "~" in x})))
         if t[0] != "caps":
             try:
                 for c in classify(spec, real, t):
@@ -763,15 +805,15 @@ def execute(ctx: Ctx, lines, tag: str):
             del events[:]
             keys_before = set(spec.V)
             try:
-                real.mutate(t)
+                real.mutate(full)
                 ans = "ok"
             except InfraError:
                 raise
             except (Exception, _Hang) as e:  # no mutator may raise (or hang) on these inputs
                 ans = "raised:" + type(e).__name__
-                ctx.oracle_fail(f"{_MUT_SITE[t[0]]}:raised", f"{ln} raised {e!r}", {"lines": sent + [" ".join(t)], "failing_line": i})
+                ctx.oracle_fail(f"{_MUT_SITE[t[0]]}:raised", f"{ln} raised {e!r}", {"lines": sent + [" ".join(full)], "failing_line": i})
             spec.mutate(t, real)
-            sent.append(" ".join(t))
+            sent.append(" ".join(full))
             answers.append(ans)
             # PeerObserver callbacks: exactly the keys that entered / left the membership, once each
             want = sorted([("added", k) for k in set(spec.V) - keys_before] + [("removed", k) for k in keys_before - set(spec.V)])
@@ -794,13 +836,13 @@ def execute(ctx: Ctx, lines, tag: str):
         else:
             before = last
             try:
-                got, objs = real.query(t)
+                got, objs = real.query(full)
             except Exception as e:
                 got, objs = "raised:" + type(e).__name__, []
                 ctx.oracle_fail(f"{SITE[t[0]]}:raised", f"{ln} raised {e!r}", {"lines": sent + [ln], "failing_line": i})
             if t[0] == "qa":
-                t[2] = got.split("{")[0] if got != "none" else "-"
-            sent.append(" ".join(t))
+                t[2] = full[2] = got.split("{")[0] if got != "none" else "-"
+            sent.append(" ".join(full))
             answers.append(got)
             last = real.digest()
             if last != before:
